@@ -91,6 +91,7 @@ func cmdFunc(args []string) {
 		os.Exit(2)
 	}
 	bad := 0
+	os.RemoveAll(*out)
 	for _, name := range fs.Args() {
 		fn := p.findFunc(name)
 		if fn == nil {
